@@ -5,7 +5,7 @@
 (* Translation validation: the source program is the definitions record D  *)
 (* (MxSem), its meaning is the oracle Den(D, element); the translation is  *)
 (* the self-contained package written by model.export()                    *)
-(* (modelx/export/exporter.py:63-111), imported and queried in a process   *)
+(* (modelx/export/exporter.py:64-113), imported and queried in a process   *)
 (* in which modelx cannot be imported.  A recorded trace is                *)
 (*    [hdr |-> [init |-> <definitions>, ...],                              *)
 (*     ev  |-> << export event, query event, query event, ... >>]          *)
@@ -16,9 +16,9 @@
 (*     steps = as the caller wrote them (ItemSpace arguments as given);    *)
 (*     live  = value in the live model            (World, harness/world.py)*)
 (*     pkg   = value returned by the package, first query                  *)
-(*             (cache methods: exporter.py:341-360; ItemSpace __call__:    *)
-(*              exporter.py:362-389; formulas rewritten by                 *)
-(*              transformer.py:137-300; references: exporter.py:207-272)   *)
+(*             (cache methods: exporter.py:384-404; ItemSpace __call__:    *)
+(*              exporter.py:406-432; formulas rewritten by                 *)
+(*              transformer.py:137-309; references: exporter.py:204-272)   *)
 (*     pkg2  = the same query again (served by the package's cache)        *)
 (*     pkgf / pkgf2 = the same from the package exported from the same     *)
 (*             program with ALL cached flags flipped                       *)
@@ -91,14 +91,62 @@ PackageStable(v1, v2)         == v1 = v2
 \* the package of the program with all cached flags flipped returns the same
 CachedUncachedAgree(v, vf)    == v = vf
 
+-----------------------------------------------------------------------------
+(* KNOWN FINDINGS (genuine defects of modelx/export/transformer.py, see    *)
+(* harness/export_templates.py).  hdr.syn lists <<path, cells, feature>> for *)
+(* every DEFINED cells whose formula TEXT has the syntactic feature of one  *)
+(* of them.  The predicates below describe exactly the failing situations;  *)
+(* any other disagreement keeps its normal label.                           *)
+
+Syn == Tr.hdr.syn
+\* the formula text of the cells that element m evaluates has feature ft
+HasSyn(DD, m, ft) ==
+    LET def == Definer(DD, CtxBase(DD, <<m[1], m[2]>>), "cells", m[3]) IN
+    \E i \in 1..Len(Syn) : Syn[i][1] = def /\ Syn[i][2] = m[3] /\ Syn[i][3] = ft
+
+\* every element the formula of n may call (all ops, whether reached or not)
+MayCall(DD, n) ==
+    LET ctx == <<n[1], n[2]>>
+        ops == FRec(DD, CellRecOf(DD, ctx, n[3])).ops IN
+    {CallTarget(DD, ctx, n[4], ops[i]) :
+        i \in {j \in 1..Len(ops) : ops[j][1] = "call" /\ ~Skipped(ops[j][3], n[4])
+                                   /\ CallErr(DD, ctx, n[4], ops[j]) = 0}}
+    \cup
+    {CallTarget(DD, ItemCtx(DD, ctx, n[4], ops[i]), n[4], AsCall(ops[i])) :
+        i \in {j \in 1..Len(ops) : ops[j][1] = "icall" /\ ItemCtx(DD, ctx, n[4], ops[j]) # Fail
+                  /\ CallErr(DD, ItemCtx(DD, ctx, n[4], ops[j]), n[4], AsCall(ops[j])) = 0}}
+RECURSIVE MayCallStar(_, _, _)
+MayCallStar(DD, front, seen) ==
+    LET nxt == UNION {MayCall(DD, m) : m \in front} \ seen IN
+    IF nxt = {} THEN seen ELSE MayCallStar(DD, nxt, seen \cup nxt)
+
+\* KF:C15.comprehension-after-nested-scope -- the package raises NameError / TypeError (the
+\* oracle says otherwise) and the element evaluates, directly or through its callees, a formula in which a
+\* global name stands inside a list/set/dict comprehension that follows a nested function or
+\* lambda (Python >= 3.12: transformer.py:188-193 steps back to the wrong symbol table)
+KFCompScope(DD, n, v, exp) ==
+    /\ v # exp /\ v \in {ErrName, ErrType}     \* (TypeError: the name left alone is also a built-in)
+    /\ \E m \in MayCallStar(DD, {n}, {n}) : HasSyn(DD, m, "compscope")
+
+\* KF:C15.parenthesised-global-name -- the package does not compile (SyntaxError) and some
+\* formula writes a global name in parentheses (transformer.py:277-289 emits `self.(name)`)
+KFParen(exported, imported, errkind) ==
+    /\ exported /\ ~imported /\ errkind = "SyntaxError"
+    /\ \E i \in 1..Len(Syn) : Syn[i][3] = "paren"
+
+EqOracleLabel(DD, n, v, exp) ==
+    IF PackageEqOracle(v, exp) THEN {}
+    ELSE IF KFCompScope(DD, n, v, exp) THEN {"KF:C15.comprehension-after-nested-scope"}
+    ELSE {"C15.PackageEqOracle"}
+
 QueryLabels(DD, e) ==
     IF ~Denotes(DD, e) THEN {"MACH.NoSuchElement"}
     ELSE
     LET n   == NodeOfQ(DD, e)
         exp == Den(DD, n) IN
-      Lbl(PackageEqOracle(e.pkg, exp)
-          \/ ~PrintT(<<"INFO", Tag, "element", n, "package", e.pkg, "oracle", exp, "live", e.live>>),
-          "C15.PackageEqOracle")
+      (IF PackageEqOracle(e.pkg, exp)
+             \/ ~PrintT(<<"INFO", Tag, "element", n, "package", e.pkg, "oracle", exp, "live", e.live>>)
+       THEN {} ELSE EqOracleLabel(DD, n, e.pkg, exp))
       \cup Lbl(LiveEqOracle(e.live, exp)
           \/ ~PrintT(<<"INFO", Tag, "element", n, "live", e.live, "oracle", exp>>),
           "MACH.LiveDiffersFromOracle")
@@ -107,7 +155,7 @@ QueryLabels(DD, e) ==
             THEN Lbl(CachedUncachedAgree(e.pkg, e.pkgf)
                      \/ ~PrintT(<<"INFO", Tag, "element", n, "package", e.pkg, "flipped", e.pkgf>>),
                      "C15.CachedUncachedAgree")
-                 \cup Lbl(PackageEqOracle(e.pkgf, exp), "C15.PackageEqOracle")
+                 \cup EqOracleLabel(DD, n, e.pkgf, exp)
                  \cup Lbl(PackageStable(e.pkgf, e.pkgf2), "C15.PackageStable")
             ELSE {})
 
@@ -116,8 +164,11 @@ QueryLabels(DD, e) ==
 ExportLabels(e) ==
     Lbl(e.flagsok, "MACH.FlagsNotAsDefined")
     \cup Lbl(e.exported /\ e.fexported, "C15.ExportAccepts")
-    \cup Lbl((e.exported => e.imported) /\ ((e.hasf /\ e.fexported) => e.fimported),
-             "C15.PackageImports")
+    \cup (IF (e.exported => e.imported) /\ ((e.hasf /\ e.fexported) => e.fimported) THEN {}
+          ELSE IF KFParen(e.exported, e.imported, e.errkind)
+                  \/ (e.hasf /\ KFParen(e.fexported, e.fimported, e.errkind))
+               THEN {"KF:C15.parenthesised-global-name"}
+               ELSE {"C15.PackageImports"})
     \cup Lbl(e.nomodelx, "C15.SelfContained")
 
 EventLabels(DD, e) ==
